@@ -86,6 +86,25 @@ func recOf(name, title string, count int, kids ...vals.V) vals.V {
 	return vals.V{K: "rec", M: m}
 }
 
+// embOf describes an item of the embedding struct types (kind "emb"; "[]pemb" / "[]*emb" slices
+// build the pointer flavours from the same description).
+func embOf(code string, id int, tags []string, subs ...vals.V) vals.V {
+	m := map[string]vals.V{"ID": vals.Int(id), "Code": vals.Str(code), "Title": vals.Str("t" + code)}
+	if tags != nil {
+		l := []vals.V{}
+		for _, t := range tags {
+			l = append(l, vals.Str(t))
+		}
+		m["Tags"] = vals.V{K: "[]string", L: l}
+	}
+	if subs != nil {
+		m["Subs"] = vals.V{K: "[]emb", L: subs}
+	}
+	return vals.V{K: "emb", M: m}
+}
+
+func isEmb(k string) bool { return k == "emb" || k == "pemb" || k == "*emb" }
+
 func mapOf(name string, n int) vals.V {
 	return vals.Map(map[string]vals.V{"name": vals.Str(name), "n": vals.Int(n), "body": vals.Str(bodyOpen + name + bodyClose)})
 }
@@ -121,6 +140,10 @@ func sampleElem(c vals.V) vals.V {
 		r := recOf("a", "ta", 1)
 		r.K = "*rec"
 		return r
+	case "[]emb", "[]pemb", "[]*emb":
+		e := embOf("a", 1, nil)
+		e.K = strings.TrimPrefix(c.K, "[]")
+		return e
 	}
 	return vals.Str("a")
 }
@@ -130,7 +153,10 @@ func sampleElem(c vals.V) vals.V {
 // They are used as loop variables and printed with {{ name }}, but not put into expressions.
 func noExpr(path string) bool {
 	head := strings.SplitN(path, ".", 2)[0]
-	return head == "title" || head == "count"
+	// Pname / Ptotal: scalars PROMOTED into the root struct from an embedded struct. Path lookup
+	// finds them; the expression environment lists a root struct's own fields only (another
+	// property's subject), so they are printed, looped over and shadowed, not compared.
+	return head == "title" || head == "count" || head == "Pname" || head == "Ptotal"
 }
 
 var strLits = []string{"a", "b", "c", "d", "p", "RN"}
@@ -170,6 +196,12 @@ func scalarPaths(sc sscope, d Data, name string) (paths []string, samples []vals
 		b, _ := field(s, "title")
 		c, _ := field(s, "Count")
 		return []string{name + ".Name", name + ".title", name + ".Count"}, []vals.V{a, b, c}, true, true
+	case isEmb(s.K):
+		// Code and ID are promoted from the embedded struct, Title is the struct's own field
+		a, _ := field(s, "Code")
+		b, _ := field(s, "ID")
+		c, _ := field(s, "Title")
+		return []string{name + ".Code", name + ".ID", name + ".Title"}, []vals.V{a, b, c}, true, true
 	}
 	return nil, nil, true, false
 }
@@ -341,7 +373,7 @@ func probeRich(id string, sc sscope, d Data, names []string, salt int, choose fu
 var letters = []string{"a", "b", "c", "d", "p", "q"}
 
 // collKinds are the sequence kinds of the property's quantifier ("[]any" in three flavours).
-var collKinds = []string{"[]any:str", "[]any:int", "[]any:map", "[]string", "[]int", "[]float64", "[]bool", "[3]int", "[]map", "[]rec", "[]*rec"}
+var collKinds = []string{"[]any:str", "[]any:int", "[]any:map", "[]string", "[]int", "[]float64", "[]bool", "[3]int", "[]map", "[]rec", "[]*rec", "[]emb", "[]pemb", "[]*emb"}
 
 // fixedColl builds a collection of kind k with n distinct items (deterministic).
 func fixedColl(k string, n int) vals.V {
@@ -360,6 +392,8 @@ func fixedColl(k string, n int) vals.V {
 			l = append(l, mapOf(letters[i], i+1))
 		case "[]rec", "[]*rec":
 			l = append(l, recOf(letters[i], "t"+letters[i], i+1))
+		case "[]emb", "[]pemb", "[]*emb":
+			l = append(l, embOf(letters[i], i+1, []string{"x" + letters[i]}))
 		}
 	}
 	kind := strings.SplitN(k, ":", 2)[0]
@@ -379,12 +413,14 @@ type rootSetup struct {
 	shadow  []string // root scalar names a loop variable can shadow
 	idxName string   // root int name the index variable can shadow
 	only    string   // "" = every collection kind; else the one kind this root can hold
+	thin    int      // > 0: every thin-th collection only (plus the missing name)
 }
 
 func rootSetups() []rootSetup {
 	mapScalars := []Slot{{"name", vals.Str("RN")}, {"total", vals.Int(7)}}
 	stScalars := []Slot{{"Name", vals.Str("RN")}, {"Label", vals.Str("RL")}, {"Total", vals.Int(7)}}
 	recScalars := []Slot{{"Name", vals.Str("RN")}, {"Title", vals.Str("RT")}, {"Count", vals.Int(7)}}
+	embScalars := []Slot{{"Pname", vals.Str("RN")}, {"Ptotal", vals.Int(7)}, {"Label", vals.Str("RL")}, {"Total", vals.Int(7)}}
 	return []rootSetup{
 		{kind: "map", coll: "xs", slot: "xs", scalars: mapScalars, shadow: []string{"name"}, idxName: "total"},
 		{kind: "root", coll: "Xs", slot: "Xs", scalars: stScalars, shadow: []string{"Name", "label"}, idxName: "total"},
@@ -392,7 +428,22 @@ func rootSetups() []rootSetup {
 		// vals.Rec as root: its only sequence field is Kids []Rec
 		{kind: "rec", coll: "Kids", slot: "Kids", scalars: recScalars, shadow: []string{"Name", "title"}, idxName: "Count", only: "[]rec"},
 		{kind: "*rec", coll: "Kids", slot: "Kids", scalars: recScalars, shadow: []string{"Title", "Name"}, idxName: "count", only: "[]rec"},
+		// roots that EMBED a struct: the looped collection Ps and the scalars Pname / Ptotal are
+		// promoted fields (by value, behind a pointer to the root, embedded by pointer)
+		{kind: "eroot", coll: "Ps", slot: "Ps", scalars: embScalars, shadow: []string{"Pname", "label"}, idxName: "Ptotal", thin: 6},
+		{kind: "*eroot", coll: "Ps", slot: "Ps", scalars: embScalars, shadow: []string{"Label", "Pname"}, idxName: "total", thin: 7},
+		{kind: "proot", coll: "Ps", slot: "Ps", scalars: embScalars, shadow: []string{"Pname", "Label"}, idxName: "Ptotal", thin: 8},
 	}
+}
+
+// apiFor: Load+Fill+Render hands the page a flattened copy of the data (Template.Render passes
+// Stack.EnvMap()), which lists a root struct's own fields only; what that means for promoted
+// root fields is not this property's subject, so embedding roots use the two direct entry points.
+func apiFor(rootKind, api string) string {
+	if isEmbRoot(rootKind) && api == "load" {
+		return "fragment"
+	}
+	return api
 }
 
 // elseSeps: what may stand between a loop and its v-else (index 0 = directly adjacent).
@@ -410,6 +461,9 @@ func core1(full bool, yield func(Case) bool) {
 			max = 3
 		}
 		for n := 0; n <= max; n++ {
+			if !full && strings.HasSuffix(k, "emb") && n != 0 && n != 2 {
+				continue // quick tier: the embedding struct kinds with 0 and 2 items only
+			}
 			colls = append(colls, fixedColl(k, n))
 		}
 	}
@@ -424,8 +478,11 @@ func core1(full bool, yield func(Case) bool) {
 	apis := []string{"string", "fragment", "load"}
 	i, rot, rotIdx := 0, 0, 0
 	for _, rs := range rootSetups() {
-		for _, coll := range colls {
+		for ci, coll := range colls {
 			if rs.only != "" && coll.K != rs.only && coll.K != "missing" {
+				continue
+			}
+			if rs.thin > 0 && ci%rs.thin != 0 && coll.K != "missing" && !strings.HasSuffix(coll.K, "emb") {
 				continue
 			}
 			d := Data{Root: rs.kind, Slots: append(append([]Slot{}, rs.scalars...), Slot{rs.slot, coll})}
@@ -556,7 +613,7 @@ func core1(full bool, yield func(Case) bool) {
 						if cb.els >= 0 {
 							l.Else = &Else{ID: "E1", Sep: elseSeps[cb.els], Body: []Node{only(probeOf("p2", outer, d, []string{vn, idx}, i, nil), "text", "tern")}}
 						}
-						c := Case{API: apis[i%3], Pretty: i%4 == 1, Data: d, Prog: []Node{{Loop: l}, only(probeOf("p3", outer, d, names, i, nil), "text", "tern", "vif")}}
+						c := Case{API: apiFor(rs.kind, apis[i%3]), Pretty: i%4 == 1, Data: d, Prog: []Node{{Loop: l}, only(probeOf("p3", outer, d, names, i, nil), "text", "tern", "vif")}}
 						if !yield(c) {
 							return
 						}
@@ -587,8 +644,8 @@ func core2(yield func(Case) bool) {
 	apis := []string{"string", "fragment", "load"}
 	i := 0
 	for _, rs := range rootSetups() {
-		if rs.only != "" {
-			continue // vals.Rec roots have no field for a list of maps
+		if rs.only != "" || rs.thin > 0 {
+			continue // vals.Rec roots have no field for a list of maps; embedding roots: see core3
 		}
 		xsN, ysN := "Xs", "ys"
 		xsSlot, ysSlot := "Xs", "Ys"
@@ -668,6 +725,70 @@ func core2(yield func(Case) bool) {
 	}
 }
 
+// ---------------------------------------------------------------- exhaustive core 3
+
+// core3: nested loops over fields PROMOTED from an embedded struct. Outer items of the three
+// embedding flavours (embedded by value, by pointer, pointer to the embedding struct), held by a
+// map root, a struct root field and a promoted root field; inner loop over item.Tags (2 / 0 /
+// nil tags) or item.Subs (embedding items again), with and without v-else; inner variable fresh,
+// equal to the outer one, or named like a root name.
+func core3(yield func(Case) bool) {
+	sub := embOf("s", 9, []string{"u"})
+	items := []vals.V{
+		embOf("a", 1, []string{"x", "y"}, sub),
+		embOf("b", 2, []string{}),
+		embOf("c", 3, nil, sub, embOf("r", 8, nil)),
+	}
+	i := 0
+	for _, kind := range []string{"[]emb", "[]pemb", "[]*emb"} {
+		coll := vals.V{K: kind, L: items}
+		elem := sampleElem(coll)
+		for _, rt := range []struct{ root, slot, name, shadow string }{
+			{"map", "posts", "posts", "name"}, {"root", "Xs", "Xs", "Name"}, {"eroot", "Ps", "Ps", "Pname"}, {"*eroot", "Ps", "Ps", "label"}, {"proot", "Ps", "Ps", "Pname"},
+		} {
+			d := Data{Root: rt.root, Slots: []Slot{{rt.slot, coll}}}
+			switch {
+			case rt.root == "map":
+				d.Slots = append(d.Slots, Slot{"name", vals.Str("RN")})
+			case rt.root == "root":
+				d.Slots = append(d.Slots, Slot{"Name", vals.Str("RN")}, Slot{"Label", vals.Str("RL")})
+			default:
+				d.Slots = append(d.Slots, Slot{"Pname", vals.Str("RN")}, Slot{"Label", vals.Str("RL")})
+			}
+			for _, inner := range []string{"Tags", "Subs"} {
+				for _, iv := range []string{"t", "p", rt.shadow} {
+					for _, els := range []bool{false, true} {
+						i++
+						root := sscope{}
+						o := root.bind("p", elem, false)
+						isample := vals.Str("x")
+						if inner == "Subs" {
+							isample = embOf("s", 9, nil)
+						}
+						in := o.bind(iv, isample, false)
+						names := uniq([]string{"p", iv, rt.shadow})
+						il := &Loop{ID: "L2", Tag: []string{"div", "template"}[i%2], Var: iv, Coll: "p." + inner,
+							Body: []Node{probeRich("p2", in, d, names, i, nil, iv)}}
+						if i%4 == 3 {
+							il.Idx = "i"
+						}
+						if els {
+							il.Else = &Else{ID: "E2", Sep: elseSeps[i%len(elseSeps)], Body: []Node{only(probeOf("p3", o, d, names, i, nil), "text", "tern")}}
+						}
+						ol := &Loop{ID: "L1", Tag: "div", Var: "p", Coll: rt.name, Bind: "p.ID",
+							Body: []Node{probeRich("p1", o, d, names, i, nil, "p"), {Loop: il}, only(probeOf("p4", o, d, names, i+1, nil), "text", "tern")}}
+						c := Case{API: apiFor(rt.root, []string{"string", "fragment", "load"}[i%3]), Pretty: i%2 == 0, Data: d,
+							Prog: []Node{{Loop: ol}, only(probeOf("p5", root, d, names, i, nil), "text", "tern")}}
+						if !yield(c) {
+							return
+						}
+					}
+				}
+			}
+		}
+	}
+}
+
 // ---------------------------------------------------------------- random nests (rapid)
 
 type gen struct {
@@ -716,6 +837,16 @@ func (g *gen) elem(k string, depth int, label string) vals.V {
 			}
 		}
 		return m
+	case "[]emb", "[]pemb", "[]*emb":
+		var tags []string
+		for k := g.int(0, 3, label+"tags"); k > 0; k-- {
+			tags = append(tags, g.pick(letters, fmt.Sprintf("%stag%d", label, k)))
+		}
+		e := embOf(g.pick(letters, label), g.int(1, 4, label+"n"), tags)
+		if depth < 2 && g.int(0, 2, label+"k") > 0 {
+			e.M["Subs"] = vals.V{K: "[]emb", L: g.coll("[]emb", depth+1, label+"s").L}
+		}
+		return e
 	case "[]rec", "[]*rec":
 		r := recOf(g.pick(letters, label), "t"+g.pick(letters, label+"t"), g.int(1, 4, label+"n"))
 		if depth < 2 && g.int(0, 2, label+"k") > 0 {
@@ -748,7 +879,7 @@ func (g *gen) coll(k string, depth int, label string) vals.V {
 
 // anyColl draws a collection of any kind, including nil slice / nil value.
 func (g *gen) anyColl(label string) vals.V {
-	switch r := g.int(0, 13, label+"kind"); {
+	switch r := g.int(0, len(collKinds)+2, label+"kind"); {
 	case r < len(collKinds):
 		return g.coll(collKinds[r], 0, label)
 	case r == len(collKinds):
@@ -787,6 +918,16 @@ func (g *gen) data() {
 			}
 		}
 		g.roots = []string{"Name", "Label", "label", "Total", "total", "Xs", "Ys", "ys", "Zs", "zs"}
+	case 7:
+		g.d.Root = []string{"eroot", "*eroot", "proot"}[g.int(0, 2, "emb")]
+		g.d.Slots = []Slot{{"Pname", vals.Str("R" + g.pick(letters, "Pname"))}, {"Ptotal", vals.Int(g.int(1, 9, "Ptotal"))},
+			{"Label", vals.Str("L" + g.pick(letters, "Label"))}, {"Total", vals.Int(g.int(1, 9, "Total"))}}
+		for _, k := range []string{"Ps", "Zs"} {
+			if g.int(0, 4, "has"+k) > 0 {
+				g.d.Slots = append(g.d.Slots, Slot{k, g.anyColl(k)})
+			}
+		}
+		g.roots = []string{"Ps", "Pname", "Ptotal", "Label", "label", "Total", "total", "Zs", "zs"}
 	default:
 		g.d.Root = []string{"rec", "*rec"}[g.int(0, 1, "ptr")]
 		g.d.Slots = []Slot{{"Name", vals.Str("R" + g.pick(letters, "Name"))}, {"Title", vals.Str("T" + g.pick(letters, "Title"))}, {"Count", vals.Int(g.int(1, 9, "Count"))},
@@ -834,6 +975,8 @@ func (g *gen) collPaths(sc sscope) []string {
 			out = append(out, n+".children")
 		case s.K == "rec" || s.K == "*rec":
 			out = append(out, n+".Kids")
+		case isEmb(s.K):
+			out = append(out, n+".Tags", n+".Subs") // collections promoted from the embedded struct
 		}
 	}
 	return out
@@ -921,6 +1064,8 @@ func (g *gen) loop(sc sscope, depth int, outerVars []string) []Node {
 		elem = mapOf("a", 1) // children are lists of maps, also where the sample item has none
 	case strings.HasSuffix(l.Coll, ".Kids"):
 		elem = recOf("a", "ta", 1)
+	case strings.HasSuffix(l.Coll, ".Subs"):
+		elem = embOf("a", 1, nil)
 	case ok && isSeq(c.K):
 		elem = sampleElem(c)
 	}
@@ -1038,7 +1183,7 @@ func (g *gen) loop(sc sscope, depth int, outerVars []string) []Node {
 func genCase(t *rapid.T) Case {
 	g := &gen{t: t}
 	g.data()
-	c := Case{API: g.pick([]string{"string", "fragment", "load"}, "api"), Pretty: rapid.Bool().Draw(t, "pretty"), Data: g.d}
+	c := Case{API: apiFor(g.d.Root, g.pick([]string{"string", "fragment", "load"}, "api")), Pretty: rapid.Bool().Draw(t, "pretty"), Data: g.d}
 	// a third of the cases call a component with many props before the loops
 	if g.int(0, 2, "topinc") == 0 {
 		for k := g.int(1, 2, "ntopinc"); k > 0; k-- {
@@ -1109,7 +1254,7 @@ func classify(c Case) (bool, []string) {
 					case "map":
 						cls["shadow:root-map-key"] = true
 					default:
-						if rootAlias[nm] == nm || recAlias[nm] == nm {
+						if (isEmbRoot(c.Data.Root) && erootAlias[nm] == nm) || (!isEmbRoot(c.Data.Root) && (rootAlias[nm] == nm || recAlias[nm] == nm)) {
 							cls["shadow:root-field-goname("+c.Data.Root+")"] = true
 						} else {
 							cls["shadow:root-field-jsontag("+c.Data.Root+")"] = true
